@@ -36,6 +36,34 @@ Theorem C05_parse_consumes_all : forall B fuel acc terms s p s',
 Proof. exact program_loop_ends. Qed.
 Print Assumptions C05_parse_consumes_all.
 
+(* EXPRESSIONS (rule (e), rule (f) as far as a single expression goes, type mismatch).
+   For every environment (function table with arities, visible variables, typing oracle), every
+   state and every fuel: an expression tree returned by the expression parser on a run that
+   recorded no error satisfies tree_ok:
+     - every call names a function of the table, with as many arguments as the function has
+       parameters unless it is variadic (a niladic function read as a value takes none);
+     - every variable read is visible in the environment (lookupVar found it);
+     - at every node for which the Go code consults the type checker (unary / binary operand
+       types, indexable / index type, sliceable / slice bounds, field access on a map, type
+       assertion on any, argument types) the typing oracle did not object.
+   _partial: the lift to whole programs ("Accept p implies every expression of p is tree_ok for
+   the function table fixed by the signature pre-pass, and the scoping rules (f) declared before
+   use across statements, (g) no redeclaration in one scope, (h) every declared variable used")
+   is not proved: it needs a simulation between the parser's scope chain and a declarative
+   scope checker on the tree.  Those rules are covered by the model only through the
+   correspondence run (harness C05rules: every mutant of these rules is rejected by the model
+   and by parser.Parse at the same positions). *)
+Theorem C05_parse_expr_rules_partial : forall E fuel p c t c',
+  parse_expr E fuel p c = Some (Some t, c') -> errs c' = [] -> tree_ok E t.
+Proof. intros E fuel. exact (proj1 (expr_rules E fuel)). Qed.
+Print Assumptions C05_parse_expr_rules_partial.
+
+(* errors are never removed: a run that ends without error never recorded one *)
+Theorem C05_parse_errors_monotone : forall E fuel p c a c',
+  parse_expr E fuel p c = Some (a, c') -> errs c' = [] -> errs c = [].
+Proof. intros E fuel. exact (proj1 (expr_ne E fuel)). Qed.
+Print Assumptions C05_parse_errors_monotone.
+
 (* ---------- non-vacuity ---------- *)
 (* tokens of one line, columns 1, 2, 3, ... (whitespace tokens are optional for the parser) *)
 Fixpoint line_from (l c : nat) (ts : list (toktype * string)) : list (token * position) :=
@@ -109,3 +137,34 @@ Example C05_parse_ex_stray_text :
   rejected (run [[i_ "print"; n_ "1"; k_ T_RPAREN]]) = true /\
   rejected (run [[k_ T_IF; k_ T_TRUE]; [i_ "print"; n_ "1"]; [k_ T_END; i_ "garbage"]]) = true.
 Proof. vm_compute. split; reflexivity. Qed.
+
+(* the remaining rules: rejected witnesses (the theorems above do not cover the scoping rules) *)
+Example C05_parse_ex_undeclared_variable : rejected (run [[i_ "print"; i_ "x"]]) = true.
+Proof. vm_compute. reflexivity. Qed.
+Example C05_parse_ex_unused_variable : rejected (run [[i_ "x"; k_ T_DECLARE; n_ "1"]]) = true.
+Proof. vm_compute. reflexivity. Qed.
+Example C05_parse_ex_unused_parameter_and_loop_variable :
+  rejected (run [[k_ T_FUNC; i_ "g"; i_ "q"; k_ T_COLON; k_ T_NUM]; [i_ "print"; n_ "1"]; [k_ T_END]]) = true /\
+  rejected (run [[k_ T_FOR; i_ "i"; k_ T_DECLARE; k_ T_RANGE; n_ "3"]; [i_ "print"; n_ "1"]; [k_ T_END]]) = true.
+Proof. vm_compute. split; reflexivity. Qed.
+Example C05_parse_ex_redeclaration :
+  rejected (run [[i_ "x"; k_ T_DECLARE; n_ "1"]; [i_ "x"; k_ T_DECLARE; n_ "2"]; [i_ "print"; i_ "x"]]) = true.
+Proof. vm_compute. reflexivity. Qed.
+Example C05_parse_ex_unknown_function : rejected (run [[i_ "foo"; n_ "1"]]) = true.
+Proof. vm_compute. reflexivity. Qed.
+Example C05_parse_ex_wrong_argument_count :
+  rejected (run [[i_ "print"; k_ T_LPAREN; i_ "len"; n_ "1"; n_ "2"; k_ T_RPAREN]]) = true /\
+  rejected (run [[i_ "print"; k_ T_LPAREN; i_ "len"; k_ T_RPAREN]]) = true.
+Proof. vm_compute. split; reflexivity. Qed.
+(* type mismatch: whenever the typing oracle objects, the program is rejected *)
+Example C05_parse_ex_type_mismatch :
+  rejected (parse {| b_funcs := b_funcs B1; b_arity := b_arity B1; b_globals := b_globals B1; b_events := b_events B1;
+                     b_tyerr := fun s _ _ => match s with TS_binary => true | _ => false end |}
+                  (prog [[i_ "print"; n_ "1"; k_ T_PLUS; (T_STRING_LIT, "a"%string)]]) (2, 1)) = true.
+Proof. vm_compute. reflexivity. Qed.
+Example C05_parse_ex_value_returned_from_procedure :
+  (* `return 1` in a procedure: a typing matter (the oracle stands for returnType.accepts) *)
+  rejected (parse {| b_funcs := b_funcs B1; b_arity := b_arity B1; b_globals := b_globals B1; b_events := b_events B1;
+                     b_tyerr := fun s _ _ => match s with TS_return_type => true | _ => false end |}
+                  (prog [[k_ T_FUNC; i_ "g"]; [k_ T_RETURN; n_ "1"]; [k_ T_END]]) (4, 1)) = true.
+Proof. vm_compute. reflexivity. Qed.
